@@ -34,6 +34,11 @@ def run_driver(lines, timeout=600):
     return p.stdout.decode('utf-8').split('\n')[:-1]
 
 
+import time as _time
+WORK_SECONDS = 45
+_exceeded = []
+
+
 class WorkBudgetExceeded(RuntimeError):
     """raised inside a REAL solve that made more line attempts than any terminating solve of that size could:
     the harness treats it as a failure of termination / bounded work, never as tool trouble"""
@@ -58,6 +63,13 @@ def install_work_budget():
         self._verif_attempts = n
         if n > WORK_BUDGET:
             raise WorkBudgetExceeded(f'more than {WORK_BUDGET} line attempts in one solve (last: {field.name()})')
+        # a runaway solve can also get SLOWER per attempt (a queue that grows with every attempt is re-sorted each
+        # time): a wall-clock bound per solve as well -- real solves take well under a second
+        if n == 1:
+            self._verif_t0 = _time.monotonic()
+        elif n % 64 == 0 and _time.monotonic() - getattr(self, '_verif_t0', _time.monotonic()) > (WORK_SECONDS if not _exceeded else 3):
+            _exceeded.append(n)     # once one solve has run away, later ones get 3 s: the check must still end in minutes
+            raise WorkBudgetExceeded(f'one solve ran for more than {WORK_SECONDS} s ({n} line attempts, queue of {len(getattr(self, "_unattempted_fields", []))}; last: {field.name()})')
         return inner(self, field, *a, **kw)
 
     counted._verif_budget = True
